@@ -68,8 +68,30 @@ def examine(case):
             return []
         metres = dm[1]
     S, L, same = brackets(year, g, metres)
-    if same or code.upper() in [r[0] for r in running_rows(year, g)]:
+    if code.upper() in [r[0] for r in running_rows(year, g)]:
         return []          # tabulated itself: C14's business
+    if same:
+        # a tabulated distance in another spelling ('0.6K' for the 600 m row): not a row of the table, so it is interpolated -
+        # and must come out at (between) the rows of exactly that distance
+        out = []
+        b = call(athlib.wma_world_best, g, code, year=year)
+        lo, hi = min(r[2] for r in same), max(r[2] for r in same)
+        if b[0] == 'exc':
+            out.append(V('best-defined', ['best-raises', b[1], 'at-tabulated-distance'], case, b[:3]))
+        elif not (isinstance(b[1], (int, float)) and lo * (1 - 1e-9) <= b[1] <= hi * (1 + 1e-9)):
+            out.append(V('best-between-neighbours', ['best-outside-bracket', 'at-tabulated-distance'], case, b[1],
+                         [(r[0], r[2]) for r in same]))
+        for age in case.get('ages', AGES):
+            refs = [row_factor(year, g, age, r[0]) for r in same]
+            if any(r[0] == 'exc' for r in refs):
+                continue
+            f = call(athlib.wma_age_factor, g, age, code, year=year)
+            vals = [r[1] for r in refs]
+            if f[0] == 'exc' or not (min(vals) - 1e-9 <= f[1] <= max(vals) + 1e-9):
+                out.append(V('factor-between-neighbours', ['factor-outside-bracket', 'at-tabulated-distance'], dict(case, age=age),
+                             f[:3], dict(zip([r[0] for r in same], vals))))
+                break
+        return out
     out = []
     where = 'below-table' if not S else 'above-table' if not L else 'inside'
     # open best
@@ -80,6 +102,11 @@ def examine(case):
         bv = b[1]
         if not isinstance(bv, (int, float)) or not math.isfinite(bv) or bv <= 0:
             out.append(V('best-defined', ['best-not-finite-positive', where], case, bv))
+        elif where == 'below-table':
+            # "use the nearest end of the table": the shortest run's open best (what the library's own test pins for 42 m)
+            end = min(r[2] for r in L)
+            if abs(bv - end) > end * 1e-9:
+                out.append(V('ends-use-nearest-row', ['best-not-end-row', where], case, bv, end))
         elif where == 'inside':
             lo = min(r[2] for r in S + L)
             hi = max(r[2] for r in S + L)
